@@ -39,6 +39,12 @@ type nonNil struct {
 	dep bool
 }
 
+// nonNilA: auto = ok is not declared: the unmodified schema's verdict is taken as it comes (zero-valued inputs).
+type nonNilA struct {
+	nonNil
+	auto bool
+}
+
 func mapsSI(vs ...int) [4]any {
 	var out [4]any
 	for i, v := range vs {
@@ -314,16 +320,43 @@ func runCfg(o *hx.Out, e *entry, h []string) {
 	o.Count("cfg:" + obs)
 }
 
-// nonNilInputs: every non-nil input of the row: okIn, badIn and the further ones.
-func nonNilInputs(e *entry) []nonNil {
-	var out []nonNil
+// nonNilInputs: every non-nil input of the row: okIn, badIn, the further ones, and the zero value of the input's type.
+func nonNilInputs(e *entry) []nonNilA {
+	var out []nonNilA
 	if e.okIn != nil {
-		out = append(out, nonNil{e.okIn, true, false})
+		out = append(out, nonNilA{nonNil{e.okIn, true, false}, false})
 	}
 	if e.badIn != nil {
-		out = append(out, nonNil{e.badIn, false, false})
+		out = append(out, nonNilA{nonNil{e.badIn, false, false}, false})
 	}
-	return append(out, e.more...)
+	for _, m := range e.more {
+		out = append(out, nonNilA{m, false})
+	}
+	// the zero value of the input's type ("", 0, false, an empty map / slice / struct): non-nil, but the value a
+	// modifier leaking into the non-nil path would most likely mistake for "absent"
+	if e.okIn != nil {
+		t := reflect.TypeOf(e.okIn)
+		var z reflect.Value
+		switch t.Kind() {
+		case reflect.Map:
+			z = reflect.MakeMap(t)
+		case reflect.Slice:
+			z = reflect.MakeSlice(t, 0, 0)
+		case reflect.Pointer, reflect.Func, reflect.Interface, reflect.Chan:
+		default:
+			z = reflect.Zero(t)
+		}
+		if z.IsValid() {
+			dup := false
+			for _, x := range out {
+				dup = dup || reflect.DeepEqual(x.v, z.Interface())
+			}
+			if !dup {
+				out = append(out, nonNilA{nonNil{v: z.Interface()}, true})
+			}
+		}
+	}
+	return out
 }
 
 // cfgTable (for `gen`): every row with its declared kind, and every (row, op) whose method — called on the schema as
